@@ -373,6 +373,36 @@ def finish_c10(ctx, res, cf):
         common.stateless_methods_clause(res, cf, 'C10', 'C10.f', c_, ['iter_recording_ids', 'get_recording', 'get_recording_metadata',
                                                                        'iter_recordings_metadata', 'extract_recording_category'],
                                         'a lookup must reflect the store as it is now')
+    # ---- C10.k the local cassettes honour the same lookup options: what one of them filters by, the other does too (a criterion only one
+    # of them applies makes the same query return different sets)
+    ck10 = res.clause('C10.k', 'R-SIBLING', 'in-memory and file-based listings read the same lookup parameters', floor=1)
+    used = {}
+    for cn in ('InMemoryTapeCassette', 'FileBasedTapeCassette'):
+        c_ = repo.cls(cn)
+        it_ = c_.lookup('iter_recording_ids')
+        todo, seen = [it_], []
+        names = set()
+        while todo:
+            m_ = todo.pop()
+            if m_ in seen or m_ is None:
+                continue
+            seen.append(m_)
+            names |= {x.id for x in ast.walk(m_.node) if isinstance(x, ast.Name) and isinstance(x.ctx, ast.Load)}
+            for n in ast.walk(m_.node):
+                if isinstance(n, ast.Call) and isinstance(n.func, ast.Attribute) and isinstance(n.func.value, ast.Name) and n.func.value.id == 'self' and \
+                        c_.lookup(n.func.attr) is not None and c_.lookup(n.func.attr).cls is c_:
+                    todo.append(c_.lookup(n.func.attr))
+        used[cn] = {q for q in it_.params[1:] if q in names and 'random' not in q}      # the order option does not change the set
+    same = used['InMemoryTapeCassette'] == used['FileBasedTapeCassette']
+    ck10.instance('lookup parameters read: in-memory %s, file-based %s' % (sorted(used['InMemoryTapeCassette']), sorted(used['FileBasedTapeCassette'])),
+                  'FileBasedTapeCassette', same)
+    ck10.evaluations += 2
+    if not same:
+        diff = sorted(used['InMemoryTapeCassette'] ^ used['FileBasedTapeCassette'])
+        fb = repo.cls('FileBasedTapeCassette').lookup('iter_recording_ids')
+        res.add(Finding('C10', 'C10.k', 'R-SIBLING', fb.file, fb.qualname, fb.node.lineno, 'lookup parameters %s' % diff,
+                        'the in-memory and the file-based cassette do not honour the same lookup options (%s is read by one of them only): the same '
+                        'query returns different sets on the two cassettes' % ', '.join(diff)))
     return res
 
 
